@@ -23,6 +23,9 @@ mod regex_to_nfa;
 mod right_ctx;
 mod semantic_action_table;
 
+#[cfg(feature = "verif_hooks")]
+mod verif_hooks;
+
 #[cfg(test)]
 mod tests;
 
@@ -54,6 +57,12 @@ pub fn lexer(input: TokenStream) -> TokenStream {
         Ok(lexer) => lexer,
         Err(error) => return TokenStream::from(error.to_compile_error()),
     };
+
+    #[cfg(feature = "verif_hooks")]
+    {
+        verif_hooks::begin(&type_name.to_string());
+        verif_hooks::dump_ast(&top_level_rules, &semantic_action_table);
+    }
 
     // Maps DFA names to their initial states in the final DFA
     let mut dfas: Map<String, dfa::StateIdx> = Default::default();
@@ -147,7 +156,20 @@ pub fn lexer(input: TokenStream) -> TokenStream {
 
     dfa::update_backtracks(&mut dfa);
 
+    #[cfg(feature = "verif_hooks")]
+    {
+        verif_hooks::dump_entries("entry0", &dfas);
+        dfa::verif_dump::dump_dfa("full", &dfa);
+    }
+
     let dfa = dfa::simplify::simplify(dfa, &mut dfas);
+
+    #[cfg(feature = "verif_hooks")]
+    {
+        verif_hooks::dump_entries("entry1", &dfas);
+        dfa::verif_dump::dump_dfa("simplified", &dfa);
+        dfa::verif_dump::dump_right_ctxs(&right_ctx_dfas);
+    }
 
     dfa::codegen::generate(
         dfa,
